@@ -64,6 +64,7 @@ type fnCtx struct {
 	verCounter   int
 	preHeaps     bool
 	oldWrites    map[string]bool
+	locWrites    map[string][]string
 	locals       map[string]Val
 	localIsAddr  map[string]bool
 	globalVals map[*ssa.Global]Val
@@ -667,6 +668,7 @@ func (fc *fnCtx) phis(b *ssa.BasicBlock, st *State) {
 func (fc *fnCtx) writeSet(blocks map[*ssa.BasicBlock]bool) (names map[string]bool, all bool) {
 	names = map[string]bool{}
 	fc.oldWrites = map[string]bool{}
+	fc.locWrites = map[string][]string{}
 	for b := range blocks {
 		for _, ins := range b.Instrs {
 			switch ins := ins.(type) {
@@ -679,9 +681,33 @@ func (fc *fnCtx) writeSet(blocks map[*ssa.BasicBlock]bool) (names map[string]boo
 				if a, ok := rootOf(ins.Addr).(*ssa.Alloc); ok && blocks[a.Block()] {
 					freshRoot = true
 				}
+				// a store into an element of a loop-invariant slice / a field of a loop-invariant object
+				// only touches that array / object
+				var locKey string
+				switch a := ins.Addr.(type) {
+				case *ssa.IndexAddr:
+					if _, isSlice := a.X.Type().Underlying().(*types.Slice); isSlice && fc.definedOutside(a.X, blocks) {
+						if v, ok := fc.vals[a.X]; ok && v.T != "" {
+							locKey = App("sarr", v.T)
+						}
+					}
+				case *ssa.FieldAddr:
+					if fc.definedOutside(a.X, blocks) && !fc.isValueAddr(a.X) {
+						if v, ok := fc.vals[a.X]; ok && v.T != "" && v.Addr == nil {
+							st0 := a.X.Type().Underlying().(*types.Pointer).Elem()
+							if !isStruct(st0.Underlying().(*types.Struct).Field(a.Field).Type()) {
+								locKey = v.T
+							}
+						}
+					}
+				}
 				for k := range tmp {
 					names[k] = true
-					if !freshRoot {
+					switch {
+					case freshRoot:
+					case locKey != "" && len(tmp) == 1:
+						fc.locWrites[k] = append(fc.locWrites[k], locKey)
+					default:
 						fc.oldWrites[k] = true
 					}
 				}
@@ -708,6 +734,17 @@ func (fc *fnCtx) writeSet(blocks map[*ssa.BasicBlock]bool) (names map[string]boo
 		}
 	}
 	return
+}
+
+// definedOutside: is the SSA value defined outside the given set of blocks (loop-invariant)?
+func (fc *fnCtx) definedOutside(v ssa.Value, blocks map[*ssa.BasicBlock]bool) bool {
+	switch x := v.(type) {
+	case *ssa.Parameter, *ssa.FreeVar, *ssa.Global, *ssa.Const:
+		return true
+	case ssa.Instruction:
+		return !blocks[x.Block()]
+	}
+	return false
 }
 
 // staticTargets adds the heaps a store through addr may write.
@@ -836,6 +873,18 @@ func (fc *fnCtx) loopHeader(li *loopInfo, st *State) {
 	} else {
 		for _, n := range sortedKeys(names) {
 			before := fc.H(st, n)
+			if !fc.oldWrites[n] && len(fc.locWrites[n]) > 0 {
+				// only the listed loop-invariant objects/arrays (and objects allocated in the loop) are written
+				fc.havocHeap(st, n)
+				after := fc.H(st, n)
+				bv := Sym(strings.ReplaceAll(strings.Trim(fc.sc.Fresh("q.loc"), "|"), "~", "_"))
+				var ne []string
+				for _, k := range fc.locWrites[n] {
+					ne = append(ne, Not(Eq(bv, k)))
+				}
+				fc.assume(st, fmt.Sprintf("(forall ((%s Ref)) (! (=> (and (< (ageR %s) %s) %s) (= (select %s %s) (select %s %s))) :pattern ((select %s %s))))", bv, bv, st.alloc, And(ne...), after, bv, before, bv, after, bv))
+				continue
+			}
 			fc.havocHeap(st, n)
 			if !fc.oldWrites[n] {
 				// every write to this heap inside the loop goes to an object allocated inside the loop:
